@@ -121,7 +121,9 @@ func (e *esdtNFTMultiTransfer) ProcessBuiltinFunction(
 	if err != nil {
 		return nil, err
 	}
-	if len(vmInput.Arguments) < 5 {
+	// the message for one token has 4 arguments on the destination shard (number, tokenID, nonce, value/data);
+	// on the sender shard the exact number of arguments is checked against the number of transfers
+	if len(vmInput.Arguments) < 4 {
 		return nil, ErrInvalidArguments
 	}
 
